@@ -67,6 +67,63 @@ theorem C17_parse_file_newlines_nonvacuous :
   · rw [h1]; simp only [ReaderKind.unicodeIO, if_true, hu]; decide
   · rw [h2]; decide
 
+/-- **The same without "the name is a file"** (audit-d, C17 finding 1).  `C17_parse_file_newlines` fixes
+WHERE the one `open` call is made (`hfile`: at the name itself).  Here the hypothesis is only that
+`pybtex.io._open` — whatever it does: the name itself, the `bytes` path `kpsewhich` printed, the name
+again when `kpsewhich` knows nothing (`C17_open_faults` (3), `C17_kpsewhich`) — ends with a handle whose
+file holds `enc s`.  Conclusion as before: text classes see `univNl s`, byte classes see `s`. -/
+theorem C17_parse_file_any_location {Db E H : Type}
+    (k : ReaderKind)
+    (core : ReaderCore Db E) (c : Codec) (encName : Str) (env : Env H) (content : H → Bytes)
+    (data : Db) (s : Str) (p : Path) (h : H)
+    (hrt : c.dec (c.enc s) = .ok s)
+    (hopen : (pyOpen (S := Stream) env (.path p) (if k.unicodeIO then ['r'] else ['r', 'b'])
+      (if k.unicodeIO then some encName else none)).2 = .ok (.handle h))
+    (hcontent : content h = c.enc s) :
+    (parseFile k core c encName env content data (.path p) none).2
+      = parseString k core c data (if k.unicodeIO then univNl s else s) ∧
+    (('\r' ∉ s ∨ k.unicodeIO = false) →
+      (parseFile k core c encName env content data (.path p) none).2 = parseString k core c data s) := by
+  have main : (parseFile k core c encName env content data (.path p) none).2
+      = parseString k core c data (if k.unicodeIO then univNl s else s) := by
+    cases k with
+    | bibtex =>
+      simp only [ReaderKind.unicodeIO, if_true] at hopen
+      simp [parseFile, ReaderKind.unicodeIO, openUnicode, hopen, readOpened,
+        hcontent, hrt, parseStream, parseString]
+    | base u =>
+      cases u
+      · simp only [ReaderKind.unicodeIO, Bool.false_eq_true, if_false] at hopen
+        simp [parseFile, ReaderKind.unicodeIO, openRaw, hopen, readOpened,
+          hcontent, parseStream, parseString]
+      · simp only [ReaderKind.unicodeIO, if_true] at hopen
+        simp [parseFile, ReaderKind.unicodeIO, openUnicode, hopen, readOpened,
+          hcontent, hrt, parseStream, parseString]
+  refine ⟨main, fun hcr => ?_⟩
+  rw [main]
+  rcases hcr with hcr | hcr
+  · cases hu : k.unicodeIO with
+    | false => simp
+    | true => simp only [if_true]; rw [univNl_of_noCR s hcr]
+  · simp [hcr]
+
+/-- `C17_parse_file_any_location` instantiated where `C17_parse_file_newlines` does not apply: `g.bib`
+is NOT a file of the toy world, `kpsewhich` prints `/texmf/g.bib`, and that `bytes` path is what is
+opened (the events say so); the document has both kinds of line end. -/
+theorem C17_parse_file_any_location_nonvacuous :
+    let s := "a\r\nb\rc\n".toList
+    let content : PathArg → Bytes := fun _ => Toy.enc s
+    Toy.env.isFile "g.bib".toList = false ∧
+    parseFile (.base true) Toy.reader Toy.codec "L1".toList Toy.env content [] (.path "g.bib".toList) none
+      = ([.locate "g.bib".toList, .tryOpen (.bytes (Toy.enc "/texmf/g.bib".toList)) "r".toList (some "L1".toList)],
+         .ok [.text "a\nb\nc\n".toList]) ∧
+    (parseFile (.base false) Toy.reader Toy.codec "L1".toList Toy.env content [] (.path "g.bib".toList) none).2
+      = parseString (.base false) Toy.reader Toy.codec [] s := by
+  intro s content
+  have h2 := (C17_parse_file_any_location (.base false) Toy.reader Toy.codec "L1".toList Toy.env content [] s
+    "g.bib".toList (.bytes (Toy.enc "/texmf/g.bib".toList)) (by decide) (by decide +kernel) rfl).2 (Or.inr rfl)
+  exact ⟨by decide, by decide +kernel, h2⟩
+
 /-- **Parse entry points** (BaseParser with both `unicode_io` values, and the classes whose `parse_string`
 is the text core: BibTeX, and BibTeXML after fix C17-4).
 If the encoding can represent the text (`dec (enc s) = s` — the ONLY fact about the codec that is used)
@@ -436,6 +493,59 @@ theorem C17_write_entry_points_bibtexml_nonvacuous :
     (writeFile .bibtexml Toy.writer Toy.codec "L1".toList Toy.env d (.path "/out/x.xml".toList : FileArg Unit)).2
       = .ok (.file (.str "/out/x.xml".toList) (Toy.enc (xmlDecl "L1".toList ++ d ++ ['\n']))) := by
   decide
+
+/-- **Write entry points, BibTeXML — what holds WITHOUT the shape hypothesis** (audit-d, C17 finding 2), and
+with the UTF-8 hypothesis for the document at hand only (`hutf8`: the hard-wired UTF-8 codec represents
+THIS body; nothing is assumed about other texts).  `body` = the characters the pretty-XML writer sends
+through the XMLGenerator after the declaration (abstract: `WriterCore.xmlBody`; the text-level pretty
+printer is not modelled).  Then `to_string` is `strip body`, `to_bytes` is `enc (declaration ++ body)`,
+`write_file` leaves exactly `to_bytes` after one `wb` open — and the property's sentence "`to_bytes` is the
+`to_string` document plus declaration (and final newline)" holds for this document IF AND ONLY IF the
+declared documents coincide, which is exactly `hshape` of `C17_write_entry_points_bibtexml`. -/
+theorem C17_write_entry_points_bibtexml_body {Db E H S : Type}
+    (core : WriterCore Db E) (c utf8 : Codec) (encName : Str) (env : Env H)
+    (d : Db) (p : Path) (h : H) (body : Str)
+    (hutf8 : utf8.dec (utf8.enc body) = .ok body)
+    (hbody : core.xmlBody d = .ok body)
+    (hopen : env.opener (.str p) ['w', 'b'] none = .ok h) :
+    toStr .bibtexml core c utf8 encName d = .ok (strip body) ∧
+    toBytes .bibtexml core c encName d = .ok (c.enc (xmlDecl encName ++ body)) ∧
+    writeFile .bibtexml core c encName env d (.path p : FileArg S)
+      = ([.tryOpen (.str p) ['w', 'b'] none], .ok (.file h (c.enc (xmlDecl encName ++ body)))) ∧
+    (xmlDecl encName ++ body = xmlDecl encName ++ strip body ++ ['\n'] ↔ body = strip body ++ ['\n']) := by
+  refine ⟨?_, ?_, ?_, ?_⟩
+  · simp [toStr, hbody, hutf8]
+  · simp only [toBytes, writeStream, hbody]
+  · simp only [writeFile, WriterKind.unicodeIO, openRaw, pyOpen, openOrCreate, hopen, writeStream, hbody,
+      Bool.false_eq_true, if_false, mode_wb, if_true]
+  · rw [List.append_assoc]
+    exact ⟨fun hx => List.append_cancel_left hx, fun hx => by rw [← hx]⟩
+
+/-- `C17_write_entry_points_bibtexml_body` instantiated in the toy world -/
+theorem C17_write_entry_points_bibtexml_body_nonvacuous :
+    let d := "<f>café</f>".toList
+    toStr .bibtexml Toy.writer Toy.codec Toy.codec "L1".toList d = .ok d ∧
+    writeFile .bibtexml Toy.writer Toy.codec "L1".toList Toy.env d (.path "/out/x.xml".toList : FileArg Unit)
+      = ([.tryOpen (.str "/out/x.xml".toList) "wb".toList none],
+         .ok (.file (.str "/out/x.xml".toList) (Toy.enc (xmlDecl "L1".toList ++ d ++ ['\n'])))) := by
+  intro d
+  have h := C17_write_entry_points_bibtexml_body (S := Unit) Toy.writer Toy.codec Toy.codec "L1".toList Toy.env d
+    "/out/x.xml".toList (.str "/out/x.xml".toList) (d ++ ['\n']) (by decide +kernel) rfl (by decide)
+  refine ⟨?_, ?_⟩
+  · rw [h.1]; decide +kernel
+  · rw [h.2.2.1, List.append_assoc]; rfl
+
+/-- The shape hypothesis of `C17_write_entry_points_bibtexml` cannot be dropped: a writer core whose XML
+body ends in TWO newlines (or starts with a blank) has `to_bytes ≠ enc (declaration ++ to_string ++ "\n")`.
+That the real `_PrettyXMLWriter` produces a body of the required shape is an assumption about code that is
+not modelled; the correspondence check exercises it on every BibTeXML case. -/
+theorem C17_write_entry_points_bibtexml_shape_neg :
+    let w : WriterCore Str Unit := { Toy.writer with xmlBody := fun d => .ok (d ++ ['\n', '\n']) }
+    let d := "<f/>".toList
+    toStr .bibtexml w Toy.codec Toy.codec "L1".toList d = .ok d ∧
+    toBytes .bibtexml w Toy.codec "L1".toList d = .ok (Toy.enc (xmlDecl "L1".toList ++ d ++ ['\n', '\n'])) ∧
+    toBytes .bibtexml w Toy.codec "L1".toList d ≠ .ok (Toy.enc (xmlDecl "L1".toList ++ d ++ ['\n'])) := by
+  refine ⟨by decide +kernel, by decide +kernel, by decide +kernel⟩
 
 /-! ## the plug-in tables -/
 
